@@ -20,7 +20,8 @@ import TapkeeVerif.Model.DijkstraFib
   out: `sp=ok|reject diag=ok|bad direct=ok|bad|na lm=ok|bad|na`
 
   in : `iso N=8 nb=<lists> w=<distance matrix> pre=<matrix seen by the eigensolver> [d=2 ev=<eigenvalues> Y=<embedding>]`
-  out: `pre=ok|differ@i,j:model:impl|unreachable cmds=ok|differ@i,j:is:want sym=0|1 y=ok|FAIL-…|na`
+  out: `graph=ok|ERR:oob reach=finite|unreachable pre=ok|differ@i,j:model:impl|thrown|na cmds=ok|differ@…|na sym=0|1
+        y=ok|FAIL-…|inconclusive|na`   (`reach`: does the model predict finite geodesics on the observed lists?)
        `y`: certificate that the returned embedding is the classical-MDS solution of the reference geodesics,
        decided in exact rational arithmetic on the dyadic values the implementation returned, tolerance 2⁻³⁰·scale:
        `YᵀY = diag(max λ 0)`, `B Y = Y diag λ` for `B = −½ J S J` computed from the Floyd–Warshall geodesics, and
@@ -216,19 +217,26 @@ def embeddingCert (fs : List (String × String)) (N : Nat) (B : DMat N N Rat) : 
         match Cert.inertiaPos B.get (lo - tol), Cert.inertiaPos B.get (lo + tol) with
         | none, none => "inconclusive"
         | _, _ => "FAIL-extremal"
-  | _, _, _ => "na"
+  | _, _, _ =>
+    -- fields present but not finite numbers of the right shape (`nan`, `inf`): a non-finite embedding
+    if (field? fs "Y").isSome && (field? fs "ev").isSome then "FAIL-nonfinite" else "na"
 
 def answerIso (fs : List (String × String)) : String :=
   match field? fs "N" >>= String.toNat?, parseLists ((field? fs "nb").getD ""),
-        parseRatMat ((field? fs "w").getD ""), parseRatMat ((field? fs "pre").getD "") with
+        parseRatMat ((field? fs "w").getD ""),
+        (if (field? fs "thrown").isSome then none else (field? fs "pre") >>= parseRatMat) with
   | some N, some nb, some W, some pre =>
     let P : Problem Rat := { N := N, nbrs := nb, w := mkW W }
     match allPairs P .lazy (chooser 0) with
-    | .error e => s!"pre={showErr e}"
+    | .error e => s!"graph={showErr e} reach=na pre=na cmds=na sym=na y=na"
     | .ok rows =>
       let G : Tab Rat := (rows.map (·.toArray)).toArray
+      let thrown := (field? fs "thrown").isSome
       if (List.range N).any fun i => (List.range N).any fun j => (G.get i j).isNone then
-        "pre=unreachable cmds=na sym=na"
+        -- the model predicts failure: some squared geodesic is dblmax² = inf, the centred matrix is not finite
+        s!"graph=ok reach=unreachable pre={if thrown then "thrown" else "na"} cmds=na sym=na y=na"
+      else if thrown then
+        "graph=ok reach=finite pre=thrown cmds=na sym=na y=na"
       else
         -- caches are first-order data (`DMat`): a `Mat`-valued `let` would be recomputed per entry
         let D := DMat.ofFn (n := N) (m := N) fun i j => (G.get i.1 j.1).getD (0 : Rat)
@@ -251,7 +259,18 @@ def answerIso (fs : List (String × String)) : String :=
           | some (i, j, m, x) => s!"differ@{i},{j}:{showDy m}:{showDy x}"
         let sym := (List.range N).all fun i => (List.range N).all fun j => G.get i j == G.get j i
         let y := embeddingCert fs N want
-        s!"pre={a} cmds={b} sym={if sym then 1 else 0} y={y}"
+        s!"graph=ok reach=finite pre={a} cmds={b} sym={if sym then 1 else 0} y={y}"
+  | some N, some nb, some W, none =>
+    -- no matrix observed (the implementation threw before / inside the eigensolver): judge the graph only
+    let P : Problem Rat := { N := N, nbrs := nb, w := mkW W }
+    match allPairs P .lazy (chooser 0) with
+    | .error e => s!"graph={showErr e} reach=na pre=na cmds=na sym=na y=na"
+    | .ok rows =>
+      let G : Tab Rat := (rows.map (·.toArray)).toArray
+      let unreach := (List.range N).any fun i => (List.range N).any fun j => (G.get i j).isNone
+      -- not thrown but no readable matrix: the matrix handed to the solver contains `nan` / `inf`
+      let preTxt := if (field? fs "thrown").isSome then "thrown" else "FAIL-nonfinite"
+      s!"graph=ok reach={if unreach then "unreachable" else "finite"} pre={preTxt} cmds=na sym=na y=na"
   | _, _, _, _ => "bad-case"
 
 def answer (line : String) : String :=
